@@ -211,6 +211,7 @@ func (p *Peer) readLoop() {
 		if err != nil {
 			p.Closed = true
 			p.ReadErr = err
+			p.Conn.Close()
 			return
 		}
 		switch m.(type) {
@@ -288,6 +289,18 @@ func (p *Peer) WorkConn(runID string, mut func(m *msg.NewWorkConn)) (*vnet.Strea
 }
 
 // ---- canonical dump of the server's private state ----
+
+// DumpWithout is Dump with the session lines of the named peer removed.
+func (w *World) DumpWithout(peer string) string {
+	var out []string
+	for _, l := range strings.Split(w.Dump(), "\n") {
+		if strings.HasPrefix(l, "session run("+peer+")") {
+			continue
+		}
+		out = append(out, l)
+	}
+	return strings.Join(out, "\n")
+}
 
 func (w *World) Dump() string {
 	var b strings.Builder
@@ -668,4 +681,71 @@ func (w *World) ServedBy(src string) []*WorkRec {
 		}
 	}
 	return out
+}
+
+// Census counts what is alive: managed threads that are not daemons and not finished, open
+// stream endpoints, open listeners and UDP sockets. Used for "no growth across cycles".
+func (w *World) Census() string {
+	th := 0
+	for _, t := range w.X.Threads() {
+		if !t.Daemon && t.Pending() != "done" && t != vs.Me() && !harnessThread(t.Name) {
+			th++
+		}
+	}
+	lns := 0
+	for _, l := range w.H.Lns {
+		if !l.Closed() {
+			lns++
+		}
+	}
+	udps := 0
+	for _, u := range w.H.UDPs {
+		if !u.IsClosed() {
+			udps++
+		}
+	}
+	srv := 0
+	for _, c := range w.H.OpenConns() {
+		if c.ServerSide {
+			srv++
+		}
+	}
+	// pooled work connections belong to live sessions and are bounded by the pool capacity
+	peek.Each(peek.F(w.Svc, "ctlManager.ctlsByRunID"), func(_ string, _, ctl reflect.Value) {
+		srv -= peek.Walk(ctl, "workConnCh").Len()
+	})
+	return fmt.Sprintf("serverThreads=%d serverSideOpenConnsNotPooled=%d listeners=%d udp=%d", th, srv, lns, udps)
+}
+
+// SendPing sends one heartbeat (valid unless mut says otherwise).
+func (p *Peer) SendPing(mut func(m *msg.Ping)) error {
+	m := &msg.Ping{}
+	if lo.Contains(p.W.Cfg.Auth.AdditionalScopes, v1.AuthScopeHeartBeats) {
+		m.Timestamp = p.W.Now()
+		m.PrivilegeKey = util.GetAuthKey(Token, m.Timestamp)
+	}
+	if mut != nil {
+		mut(m)
+	}
+	return p.Send(m)
+}
+
+func harnessThread(name string) bool {
+	return strings.HasPrefix(name, "srvworld.") || strings.HasPrefix(name, "main.")
+}
+
+// CensusDetail lists what Census counts.
+func (w *World) CensusDetail() string {
+	var out []string
+	for _, t := range w.X.Threads() {
+		if !t.Daemon && t.Pending() != "done" && t != vs.Me() && !harnessThread(t.Name) {
+			out = append(out, fmt.Sprintf("T%d %s [%s]", t.ID, t.Name, t.Pending()))
+		}
+	}
+	for _, c := range w.H.OpenConns() {
+		if c.ServerSide {
+			out = append(out, c.String())
+		}
+	}
+	return strings.Join(out, "\n")
 }
